@@ -67,18 +67,38 @@ def c_atoms(tu):
             kind_if = n
     if kind_if is None:
         raise AnalysisError("anchor vanished: child-kind test in BTree_check_inner")
-    tree_nodes = set(id(x) for x in kind_if.kids[1].walk())
-    leaf_nodes = set(id(x) for x in kind_if.kids[2].walk())
-    for n in fn.walk():
-        if n.k == "IfStmt" and n.mo == "CHECK":
-            c = strip(n.kids[0])
-            if c.k == "UnaryOperator" and c.v == "!":
-                c = strip(c.kids[0])
-            atoms.append((_c_atom(c, id(n) in tree_nodes, id(n) in leaf_nodes), n.l))
+    neg = text(kind_if.kids[0]).replace(" ", "").startswith("!") or "!=" in text(kind_if.kids[0])
+    tree_br, leaf_br = (kind_if.kids[2], kind_if.kids[1]) if neg else (kind_if.kids[1], kind_if.kids[2])
+    tree_nodes = set(id(x) for x in tree_br.walk())
+    leaf_nodes = set(id(x) for x in leaf_br.walk())
+    bodies = [(fn, None)]
+    # helpers called from the checker (not the recursion itself) are part of it;
+    # a helper called from one branch of the child-kind test inherits its scope
+    seen = set(["BTree_check_inner"])
+    for c in fn.walk():
+        if c.k == "CallExpr" and callee(c)[0] == "fn" and callee(c)[1] in tu.funcs and \
+                callee(c)[1] not in seen and any(
+                    x.k == "IfStmt" and x.mo == "CHECK" for x in tu.funcs[callee(c)[1]].walk()):
+            seen.add(callee(c)[1])
+            scope = "tree" if id(c) in tree_nodes else "leaf" if id(c) in leaf_nodes else None
+            bodies.append((tu.funcs[callee(c)[1]], scope))
+    for f2, forced in bodies:
+        for n in f2.walk():
+            if n.k == "IfStmt" and n.mo == "CHECK":
+                c = strip(n.kids[0])
+                if c.k == "UnaryOperator" and c.v == "!":
+                    c = strip(c.kids[0])
+                in_tree = (forced == "tree") or (forced is None and id(n) in tree_nodes)
+                in_leaf = (forced == "leaf") or (forced is None and id(n) in leaf_nodes)
+                atoms.append((_c_atom(c, in_tree, in_leaf), n.l))
     # recursion with the successor and the successor definitions
-    rec = [c for c in fn.walk() if c.k == "CallExpr" and callee(c) == ("fn", "BTree_check_inner")]
-    succ_defs = sorted(set(text(a.kids[1]).replace(" ", "") for a in fn.walk()
-                           if a.k == "BinaryOperator" and a.v == "=" and path(a.kids[0]) == "bucketafter"))
+    rec = []
+    succ_defs = set()
+    for f2, _ in bodies:
+        rec += [c for c in f2.walk() if c.k == "CallExpr" and callee(c) == ("fn", "BTree_check_inner")]
+        succ_defs |= set(text(a.kids[1]).replace(" ", "") for a in f2.walk()
+                         if a.k == "BinaryOperator" and a.v == "=" and path(a.kids[0]) == "bucketafter")
+    succ_defs = sorted(succ_defs)
     if rec and path(rec[0].kids[2]) == "bucketafter" and \
             succ_defs == sorted(["(Bucket*)self->data[(i+1)].child", "child2->firstbucket", "nextbucket"]):
         atoms.append(("recurse-with-successor", rec[0].l))
@@ -87,23 +107,144 @@ def c_atoms(tu):
     return atoms
 
 
-def _py_atom(cond, scope):
-    t = pyfront.unparse(cond).replace(" ", "")
-    if " or " in pyfront.unparse(cond):
-        return "WEAKENED:" + t[:80]
-    table = {
-        "self._firstbucketisNone": "empty-has-no-firstbucket",
-        "self._firstbucketisnotNone": "nonempty-has-firstbucket",
-        "i.childisnotNone": "child-nonnull",
-        "type(i.child)ischild_class": "child-kind-uniform",
-        "i.child.size": "child-nonempty:all",
-        "self._firstbucketisdata[0].child._firstbucket": "firstbucket-matches-first-subtree",
-        "self._firstbucketisdata[0].child": "firstbucket-is-first-leaf",
-        "data[i].child._nextisdata[i+1].child": "leaf-next-links:inner",
-        "data[-1].child._nextisnextbucket": "leaf-next-links:last",
-        "False": "child-kind-known",
-    }
-    return table.get(t, "other:" + t[:60])
+# Python _check: every asserted condition is printed in a canonical form in
+# which locals are replaced by what they stand for (data = self._data, a loop
+# variable over data = data[j], a pair from zip(data, data[1:]) = data[j],
+# data[j+1], child_class = type(data[0].child), ...), so that neither the names
+# of locals nor the loop idiom matter.
+
+PY_ATOMS = {
+    "self._firstbucket is None": "empty-has-no-firstbucket",
+    "self._firstbucket is not None": "nonempty-has-firstbucket",
+    "data[j].child is not None": "child-nonnull",
+    "type(data[j].child) is type(data[0].child)": "child-kind-uniform",
+    "data[j].child.size": "child-nonempty:all",
+    "self._firstbucket is data[0].child._firstbucket": "firstbucket-matches-first-subtree",
+    "self._firstbucket is data[0].child": "firstbucket-is-first-leaf",
+    "data[j].child._next is data[j+1].child": "leaf-next-links:inner",
+    "data[-1].child._next is nextbucket": "leaf-next-links:last",
+    "False": "child-kind-known",
+}
+PY_RECURSION = sorted(["data[j].child._check(data[j+1].child._firstbucket)",
+                       "data[-1].child._check(nextbucket)"])
+
+
+class _Canon(object):
+    def __init__(self, fn):
+        self.fn = fn
+        self.env = {}
+        self.asserts = []
+        self.calls = []
+        self.assert_names = set(["self._assert"])
+        params = [a.arg for a in fn.args.args]
+        if len(params) > 1:
+            self.env[params[1]] = "nextbucket"
+
+    def idx(self, e):
+        if isinstance(e, ast.Constant) and isinstance(e.value, int):
+            return str(e.value)
+        if isinstance(e, ast.UnaryOp) and isinstance(e.op, ast.USub) and isinstance(e.operand, ast.Constant):
+            return "-%d" % e.operand.value
+        if isinstance(e, ast.Name):
+            v = self.env.get(e.id)
+            if isinstance(v, tuple) and v[0] == "idx":
+                return "j" if v[1] == 0 else "j%+d" % v[1]
+        if isinstance(e, ast.BinOp) and isinstance(e.op, (ast.Add, ast.Sub)) and \
+                isinstance(e.right, ast.Constant) and isinstance(e.left, ast.Name):
+            v = self.env.get(e.left.id)
+            if isinstance(v, tuple) and v[0] == "idx":
+                k = v[1] + (e.right.value if isinstance(e.op, ast.Add) else -e.right.value)
+                return "j" if k == 0 else "j%+d" % k
+        return pyfront.unparse(e).replace(" ", "")
+
+    def c(self, e):
+        if isinstance(e, ast.Name):
+            v = self.env.get(e.id)
+            if isinstance(v, str):
+                return v
+            return e.id
+        if isinstance(e, ast.Attribute):
+            b = self.c(e.value)
+            s = "%s.%s" % (b, e.attr)
+            return "data" if s == "self._data" else s
+        if isinstance(e, ast.Subscript):
+            return "%s[%s]" % (self.c(e.value), self.idx(e.slice))
+        if isinstance(e, ast.Call):
+            return "%s(%s)" % (self.c(e.func), ", ".join(self.c(a) for a in e.args))
+        if isinstance(e, ast.Compare) and len(e.ops) == 1:
+            op = {ast.Is: "is", ast.IsNot: "is not", ast.Eq: "==", ast.NotEq: "!=", ast.Lt: "<",
+                  ast.LtE: "<=", ast.Gt: ">", ast.GtE: ">="}.get(type(e.ops[0]), "?")
+            return "%s %s %s" % (self.c(e.left), op, self.c(e.comparators[0]))
+        if isinstance(e, ast.BoolOp):
+            return (" or " if isinstance(e.op, ast.Or) else " and ").join(self.c(v) for v in e.values)
+        if isinstance(e, ast.UnaryOp) and isinstance(e.op, ast.Not):
+            return "not %s" % self.c(e.operand)
+        if isinstance(e, ast.Constant):
+            return repr(e.value)
+        return pyfront.unparse(e)
+
+    def bind_loop(self, target, it):
+        if isinstance(it, ast.Name) and isinstance(self.env.get(it.id), tuple) and self.env[it.id][0] == "expr":
+            it = self.env[it.id][1]
+        src = self.c(it) if not isinstance(it, ast.Call) else None
+        if isinstance(it, ast.Call):
+            f = pyfront.unparse(it.func)
+            if f == "range":
+                # range(len(data) - 1) / range(len(data)): an index over data
+                if isinstance(target, ast.Name):
+                    self.env[target.id] = ("idx", 0)
+                    return
+            if f == "zip" and isinstance(target, ast.Tuple):
+                for t, a in zip(target.elts, it.args):
+                    if isinstance(t, ast.Name):
+                        off = 0
+                        base = a
+                        if isinstance(a, ast.Subscript) and isinstance(a.slice, ast.Slice) and \
+                                a.slice.lower is not None and isinstance(a.slice.lower, ast.Constant):
+                            off = a.slice.lower.value
+                            base = a.value
+                        self.env[t.id] = "%s[%s]" % (self.c(base), "j" if off == 0 else "j%+d" % off)
+                return
+            if f == "enumerate" and isinstance(target, ast.Tuple) and len(target.elts) == 2:
+                self.env[target.elts[0].id] = ("idx", 0)
+                self.env[target.elts[1].id] = "%s[j]" % self.c(it.args[0])
+                return
+            raise AnalysisError("_check: loop over %s" % pyfront.unparse(it)[:40])
+        if isinstance(target, ast.Name):
+            if isinstance(it, ast.Subscript) and isinstance(it.slice, ast.Slice):
+                lo = it.slice.lower.value if isinstance(it.slice.lower, ast.Constant) else 0
+                self.env[target.id] = "%s[%s]" % (self.c(it.value), "j" if lo == 0 else "j%+d" % lo)
+            else:
+                self.env[target.id] = "%s[j]" % src
+
+    def walk(self, stmts):
+        for st in stmts:
+            if isinstance(st, ast.Assign) and len(st.targets) == 1 and isinstance(st.targets[0], ast.Name):
+                if isinstance(st.value, ast.Call) and pyfront.unparse(st.value.func) in ("zip", "enumerate", "range"):
+                    self.env[st.targets[0].id] = ("expr", st.value)
+                    continue
+                v = self.c(st.value)
+                if v == "self._assert":
+                    self.assert_names.add(st.targets[0].id)
+                self.env[st.targets[0].id] = v
+                continue
+            if isinstance(st, ast.For):
+                saved = dict(self.env)
+                self.bind_loop(st.target, st.iter)
+                self.walk(st.body)
+                self.env = saved
+                continue
+            if isinstance(st, ast.If):
+                self.walk(st.body)
+                self.walk(st.orelse)
+                continue
+            for c in ast.walk(st):
+                if isinstance(c, ast.Call):
+                    fn = pyfront.unparse(c.func)
+                    if (fn in self.assert_names or self.env.get(fn) == "self._assert") and c.args:
+                        self.asserts.append((self.c(c.args[0]), c.lineno))
+                    elif isinstance(c.func, ast.Attribute) and c.func.attr == "_check":
+                        self.calls.append(self.c(c))
 
 
 def py_atoms():
@@ -112,20 +253,23 @@ def py_atoms():
     fn = t.get("_check")
     if not isinstance(fn, ast.FunctionDef):
         raise AnalysisError("anchor vanished: _Tree._check")
+    cn = _Canon(fn)
+    cn.walk(fn.body)
     atoms = []
-    for c in ast.walk(fn):
-        if isinstance(c, ast.Call) and pyfront.unparse(c.func) in ("assert_", "self._assert") and c.args:
-            atoms.append((_py_atom(c.args[0], None), c.lineno))
-    rec = [pyfront.unparse(c).replace(" ", "") for c in ast.walk(fn) if isinstance(c, ast.Call) and
-           isinstance(c.func, ast.Attribute) and c.func.attr == "_check"]
-    if sorted(rec) == sorted(["data[i].child._check(data[i+1].child._firstbucket)",
-                              "data[-1].child._check(nextbucket)"]):
+    for text_, line in cn.asserts:
+        if " or " in text_:
+            atoms.append(("WEAKENED:" + text_[:80], line))
+        else:
+            atoms.append((PY_ATOMS.get(text_, "other:" + text_[:70]), line))
+    if sorted(set(cn.calls)) == PY_RECURSION:
         atoms.append(("recurse-with-successor", fn.lineno))
     else:
-        atoms.append(("other:recursion %s" % rec, fn.lineno))
+        atoms.append(("other:recursion %s" % sorted(set(cn.calls)), fn.lineno))
     # _assert raises AssertionError
     a = t.get("_assert")
-    if not isinstance(a, ast.FunctionDef) or "raise AssertionError" not in pyfront.unparse(a):
+    if not isinstance(a, ast.FunctionDef) or not any(
+            isinstance(r, ast.Raise) and r.exc is not None and "AssertionError" in pyfront.unparse(r.exc)
+            for r in ast.walk(a)):
         atoms.append(("other:_assert does not raise AssertionError", fn.lineno))
     return atoms
 
@@ -190,6 +334,11 @@ def compare(c_atoms_list, py_atoms_list, where_c="BTree_check_inner"):
 # ---------------------------------------------------------------------------
 # check.py
 
+class _RpReturn(Exception):
+    def __init__(self, v):
+        self.v = v
+
+
 def check_py_module(res):
     tree = pyfront.module(CHK)
     cls = pyfront.classes(tree)
@@ -202,28 +351,109 @@ def check_py_module(res):
     cs = mem.get("check_sorted")
     if not isinstance(cs, ast.FunctionDef):
         raise AnalysisError("anchor vanished: Checker.check_sorted")
-    # COMPLAIN-DISC: the three comparisons
-    want = {"lo is not None and (not compare(lo, x) <= 0)": "key below the lower bound",
-            "hi is not None and (not compare(x, hi) < 0)": "key at or above the upper bound",
-            "i < n - 1 and (not compare(x, keys[i + 1]) < 0)": "keys out of order / duplicate"}
+    # COMPLAIN-DISC: the three comparisons, as truth tables over the sign of
+    # the three-way comparison (names and loop idiom do not matter)
+    params = [a.arg for a in cs.args.args]
+    if len(params) < 6:
+        raise AnalysisError("Checker.check_sorted: expected (self, obj, path, keys, lo, hi)")
+    keysp, lop, hip = params[3], params[4], params[5]
+    cn = _Canon(cs)
+    cn.env[keysp] = "keys"
+    cn.env[lop] = "lo"
+    cn.env[hip] = "hi"
+    visits = [False]
     found = {}
-    for i in ast.walk(cs):
-        if isinstance(i, ast.If):
-            t = pyfront.unparse(i.test)
-            complains = any(isinstance(c, ast.Call) and pyfront.unparse(c.func) == "self.complain"
-                            for b in i.body for c in ast.walk(b))
-            found[t] = complains
-    for t, what in want.items():
+
+    def sign_table(test, cmp_call):
+        """truth of `test` for compare(..) in (-1, 0, 1), other conjuncts true"""
+        out = []
+        for sgn in (-1, 0, 1):
+            def ev(t):
+                if t is cmp_call:
+                    return sgn
+                if isinstance(t, ast.BoolOp):
+                    vals = [ev(v) for v in t.values]
+                    vals = [v for v in vals if v is not None]
+                    if isinstance(t.op, ast.And):
+                        return all(vals)
+                    return any(vals)
+                if isinstance(t, ast.UnaryOp) and isinstance(t.op, ast.Not):
+                    v = ev(t.operand)
+                    return None if v is None else not v
+                if isinstance(t, ast.Compare) and len(t.ops) == 1:
+                    l, r = ev(t.left), ev(t.comparators[0])
+                    if isinstance(l, int) and not isinstance(l, bool) and isinstance(t.comparators[0], ast.Constant):
+                        c = t.comparators[0].value
+                        return {ast.Lt: l < c, ast.LtE: l <= c, ast.Gt: l > c, ast.GtE: l >= c,
+                                ast.Eq: l == c, ast.NotEq: l != c}[type(t.ops[0])]
+                    return None          # a guard (lo is not None, i < n - 1): assumed true
+                if isinstance(t, ast.Constant):
+                    return t.value
+                return None
+            out.append(bool(ev(test)))
+        return tuple(out)
+
+    def scan(stmts):
+        for st in stmts:
+            if isinstance(st, ast.Assign) and len(st.targets) == 1 and isinstance(st.targets[0], ast.Name):
+                if isinstance(st.value, ast.Call) and pyfront.unparse(st.value.func) == "len" and \
+                        cn.c(st.value.args[0]) == "keys":
+                    cn.env[st.targets[0].id] = "len(keys)"
+                else:
+                    cn.env[st.targets[0].id] = cn.c(st.value)
+            elif isinstance(st, ast.For):
+                it = st.iter
+                over = None
+                if cn.c(it) == "keys":
+                    over = "keys"
+                    if isinstance(st.target, ast.Name):
+                        cn.env[st.target.id] = "keys[j]"
+                elif isinstance(it, ast.Call) and pyfront.unparse(it.func) == "enumerate" and cn.c(it.args[0]) == "keys":
+                    over = "keys"
+                    cn.env[st.target.elts[0].id] = ("idx", 0)
+                    cn.env[st.target.elts[1].id] = "keys[j]"
+                elif isinstance(it, ast.Call) and pyfront.unparse(it.func) == "range" and len(it.args) == 1 and \
+                        cn.c(it.args[0]) in ("len(keys)",):
+                    over = "keys"
+                    cn.env[st.target.id] = ("idx", 0)
+                if over:
+                    visits[0] = True
+                scan(st.body)
+            elif isinstance(st, ast.If):
+                complains = any(isinstance(c, ast.Call) and pyfront.unparse(c.func) == "self.complain"
+                                for b in st.body for c in ast.walk(b))
+                cmps = [c for c in ast.walk(st.test) if isinstance(c, ast.Call) and pyfront.unparse(c.func) == "compare"]
+                if complains and len(cmps) == 1:
+                    args = tuple(cn.c(a) for a in cmps[0].args)
+                    found[args] = sign_table(st.test, cmps[0])
+                scan(st.body)
+                scan(st.orelse)
+            elif isinstance(st, ast.AugAssign):
+                pass
+    scan(cs.body)
+    want = {("lo", "keys[j]"): ((False, False, True), "key below the lower bound"),
+            ("keys[j]", "hi"): ((False, True, True), "key at or above the upper bound"),
+            ("keys[j]", "keys[j+1]"): ((False, True, True), "keys out of order / duplicate")}
+    # an index-counting loop (`i += 1` after `for x in keys`): i stands for j
+    for t, (table, what) in want.items():
         n += 1
-        if not found.get(t):
+        got = found.get(t)
+        if got is None:
+            # manual counter idiom: keys[i + 1] with a counter that is not a loop index
+            for k2, v2 in found.items():
+                if t[1] == "keys[j+1]" and k2[0] == "keys[j]" and k2[1].startswith("keys[") and k2[1] != "keys[j]":
+                    got = v2
+        if got != table:
             res.findings.add(dict(
                 rule="COMPLAIN-DISC", function="Checker.check_sorted", file=CHK, line=cs.lineno,
-                construct="comparison `%s` missing or not reported" % t,
-                detail="check_sorted must report a %s through self.complain" % what, path=[]))
-    loop = [x for x in cs.body if isinstance(x, ast.For)]
+                construct="comparison compare(%s, %s): complains for signs %s (required %s)" % (
+                    t[0], t[1], got, table),
+                detail="check_sorted must report a %s through self.complain: "
+                       "with s = compare(%s, %s) the complaint is required "
+                       "exactly for s in %s" % (what, t[0], t[1],
+                                                [sg for sg, b in zip((-1, 0, 1), table) if b]), path=[]))
     n += 1
-    if not loop or pyfront.unparse(loop[0].iter) != "keys" or \
-            not any(pyfront.unparse(b) == "i += 1" for b in loop[0].body):
+    if not visits[0]:
         res.findings.add(dict(
             rule="COMPLAIN-DISC", function="Checker.check_sorted", file=CHK, line=cs.lineno,
             construct="check_sorted does not visit every key",
@@ -268,13 +498,42 @@ def check_py_module(res):
     for first in (True, False):
         for last in (True, False):
             m += 1
-            env = {"lo": "lo", "hi": "hi"}
+            env = {"lo": "lo", "hi": "hi", "keys": "KEYS", "kids": "KIDS", "i": "I"}
+            modfuncs = pyfront.functions(tree)
+            # the loop variable and the key / child lists, whatever they are called
+            lt = loops[0].target
+            if isinstance(lt, ast.Name):
+                env[lt.id] = "I"
+
+            def idx_text(e):
+                t = pyfront.unparse(e).replace(" ", "")
+                for nm, v in env.items():
+                    if v == "I":
+                        t = re.sub(r"\b%s\b" % re.escape(nm), "i", t)
+                return t
 
             def ev(e):
                 if isinstance(e, ast.Name):
                     if e.id in env:
                         return env[e.id]
                     raise AnalysisError("range-prop: unknown name %s" % e.id)
+                if isinstance(e, ast.Call) and isinstance(e.func, ast.Name) and e.func.id in modfuncs:
+                    # a helper of the module: its body is interpreted with the
+                    # parameters bound to the caller's values
+                    fn2 = modfuncs[e.func.id]
+                    saved = dict(env)
+                    for p2, a in zip([a.arg for a in fn2.args.args], e.args):
+                        env[p2] = ev(a)
+                    try:
+                        run(fn2.body)
+                        ret = None
+                    except _RpReturn as r:
+                        ret = r.v
+                    env.clear()
+                    env.update(saved)
+                    return ret
+                if isinstance(e, ast.Subscript) and isinstance(e.value, ast.Name) and env.get(e.value.id) == "KEYS":
+                    return "keys[%s]" % idx_text(e.slice)
                 if isinstance(e, ast.Constant) and e.value is None:
                     return "None"
                 if isinstance(e, ast.Tuple):
@@ -286,7 +545,8 @@ def check_py_module(res):
                 raise AnalysisError("range-prop: unrecognised expression %s" % pyfront.unparse(e))
 
             def test(t):
-                s = pyfront.unparse(t).replace(" ", "")
+                s = idx_text(t)
+                s = re.sub(r"len\((\w+)\)", lambda m: "n" if env.get(m.group(1)) in ("KIDS", "KEYS+1") else m.group(0), s)
                 if s in ("i<n-1", "i!=n-1", "n-1>i"):
                     return not last
                 if s in ("i>0", "i!=0", "i", "0<i"):
@@ -316,6 +576,8 @@ def check_py_module(res):
                         pushed.append((ev(tup.elts[3]), ev(tup.elts[4])))
                     elif isinstance(st, ast.Expr) and isinstance(st.value, ast.Constant):
                         pass
+                    elif isinstance(st, ast.Return):
+                        raise _RpReturn(ev(st.value) if st.value is not None else None)
                     else:
                         raise AnalysisError("range-prop: unrecognised statement %s" % type(st).__name__)
             run(body)
